@@ -89,6 +89,18 @@ Definition abs2_op (o : gj_op) (st : bstate) : option bstate :=
                 else if Qle_bool (hi A p j) 0 then aget A m j
                 else Aq 0 (hi A m j + hi A p j * vb)%Q)), d)
       else None
+  | OElimSkip m p c cmp thr =>
+      if skip_exact cmp thr then
+        if Nat.eqb (idx m) (idx p) then None else
+        let pl := row_lo A d p c in
+        if qlt 0 pl then
+          let vb := (hi A m c / pl)%Q in
+          Some (rset A m (vbuild (fun j =>
+                  if Nat.eqb j (idx c) then Aq 0 0
+                  else if Qle_bool (hi A p j) 0 then aget A m j
+                  else Aq 0 (hi A m j + hi A p j * vb)%Q)), d)
+        else None
+      else None
   | OScale r c cmp thr =>
       match cmp with
       | CLe | CLt =>
@@ -124,7 +136,11 @@ Definition gj_total_ok (p : gj_prog) : bool := init_l_ok p && total_from rot_ini
 Definition pivots_found (p : gj_prog) : bool :=
   match abs2_fail (gp_ops p) rot_init with Some (OPivotSwap _ _ _ _ _) => false | _ => true end.
 Definition divisors_nonzero (p : gj_prog) : bool :=
-  match abs2_fail (gp_ops p) rot_init with Some (OElim _ _ _) => false | _ => true end.
+  match abs2_fail (gp_ops p) rot_init with
+  | Some (OElim _ _ _) => false
+  | Some (OElimSkip _ _ _ cmp thr) => negb (skip_exact cmp thr)   (* an inexact skip guard has its own obligation *)
+  | _ => true
+  end.
 Definition thresholds_passed (p : gj_prog) : bool :=
   match abs2_fail (gp_ops p) rot_init with Some (OScale _ _ _ _) => false | _ => true end.
 (** For the report: the final intervals. *)
